@@ -113,9 +113,9 @@ func Modules(c *core.Ctx) []*Module {
 // readOnlyExtra lists exported module methods that are not part of the module's R-interface but
 // were confirmed by reading to mutate nothing (one line of reason each).
 var readOnlyExtra = map[string]string{
-	"accounts.Accounts.IsX3Mining":          "pure predicate over GetLockStakeUntilBlock",
-	"accounts.Accounts.HasDirtyCoins":       "reads a flag under the model lock",
-	"accounts.Accounts.IsNewOrDirty":        "reads flags under the model lock",
+	"accounts.Accounts.IsX3Mining":                          "pure predicate over GetLockStakeUntilBlock",
+	"accounts.Accounts.HasDirtyCoins":                       "reads a flag under the model lock",
+	"accounts.Accounts.IsNewOrDirty":                        "reads flags under the model lock",
 	"candidates.Candidates.GetCandidateByTendermintAddress": "lookup; read-only",
 	"candidates.Candidates.IsChangedPublicKeys":             "reads a flag",
 	"candidates.Candidates.PubKey":                          "id→pubkey lookup",
